@@ -1,3 +1,5 @@
+\* Stand-alone thorough configuration (= t_a of checks/transport.py): <=3 runs of length 0..2 over 4 bases,
+\* <=3 operations with counts 0..3, all three kinds; measured 518 124 distinct states / 9 030 409 generated.
 SPECIFICATION Spec
 CONSTANTS
   P = 2
